@@ -9,7 +9,7 @@ PROOF_MODULES = []   # the C32 .vo files are compiled directly with coqc (see th
 OBLIGATIONS = [
     "C32/P_division.v", "C32/P_division_unique.v", "C32/P_mp_fdiv.v", "C32/P_gcd_lcm.v", "C32/P_gcd_ext.v",
     "C32/P_mod_inverse.v", "C32/P_crt.v", "C32/P_crt_reduced_refuted.v", "C32/P_mp_powm.v", "C32/P_powermod.v",
-    "C32/P_boost_powermod_refuted.v", "C32/P_factorial.v", "C32/P_binomial.v", "C32/P_fibonacci_lucas.v",
+    "C32/P_factorial.v", "C32/P_binomial.v", "C32/P_fibonacci_lucas.v",
     "C32/P_is_prime.v", "C32/P_factorisation.v", "C32/P_factor_trial_division.v", "C32/P_totient.v", "C32/P_mobius.v",
     "C32/P_quadratic_residues.v", "C32/P_polygonal_number.v", "C32/P_polygonal_root.v", "C32/P_perfect_power.v", "C32/P_mp_root.v", "C32/P_prime_factors.v", "C32/P_mertens.v",
     "C32/P_is_nth_residue_refuted.v", "C32/P_is_nth_residue_zero_exponent.v", "C32/P_lehman_complete_refuted.v",
@@ -244,10 +244,8 @@ def classify(case, cfg, what):
         return "C32/nthroot_mod_list-power-of-two-not-reduced"
     if cfg == "boost" and c == "isqr" and a[1] < 0 and "EXN:7" in what:
         return "C32/boost-is_quad_residue-negative-modulus-throws"
-    if cfg == "boost" and c in ("powm", "mppowm") and a[2] < 0:
-        return "C32/boost-powm-negative-modulus"
-    if cfg == "boost" and c == "kro" and a[1] == 0:
-        return "C32/boost-kronecker-zero-throws"
+    if c == "powmq" and a[0] >= 0 and "roots are not reduced" in what and a[3] & (a[3] - 1) == 0:
+        return "C32/nthroot_mod_list-power-of-two-not-reduced"
     words = [w for w in what.replace(":", " ").replace(",", " ").split() if w.isidentifier()]
     return pre + c + "-" + "-".join(words[:6])
 
@@ -329,8 +327,8 @@ def run(ctx):
         "are modelled by exact trial-division primality (C33 shows the sieve yields exactly the primes)",
         "GMP configuration: mp_gcdext/mp_invert/mp_powm/mp_fdiv_qr/mp_bin_ui/mp_fac_ui/mp_fib_ui/mp_lucnum_ui/mp_jacobi are GMP calls; the model "
         "uses the transcription of mp_boost.cpp for them, the theorems show the transcription has the documented GMP meaning, and the "
-        "correspondence run checks the GMP build returns the same values (only mpz_gcdext(0,0), mpz_kronecker(a,0), jacobi of even/negative "
-        "denominators and powm with negative modulus differ and are modelled per configuration)",
+        "correspondence run checks the GMP build returns the same values (only jacobi/legendre of even, negative or composite "
+        "denominators differ between the configurations and are modelled per configuration)",
         "oracle-only (no Coq model, labelled in evidence): nthroot_mod, nthroot_mod_list, powermod/powermod_list with rational exponent, "
         "primitive_root_list, factor_pollard_rho_method, factor_pollard_pm1_method, nextprime, probab_prime_p, primepi, primorial",
         "theorems over explicit finite ranges only (complete evaluation of the faithful model against definitions by exhaustive search; "
